@@ -71,24 +71,14 @@ func unhex(s string) []byte {
 
 func chunkFeatures(in In) []string {
 	f := []string{"op-" + in.Op}
-	total, empty := 0, false
 	for _, c := range in.Chunks {
-		total += c
 		if c == 0 {
-			empty = true
+			f = append(f, "has-empty-chunk")
+			break
 		}
-	}
-	if empty {
-		f = append(f, "has-empty-chunk")
 	}
 	if in.SumAt >= 0 {
 		f = append(f, "mid-stream-sum")
-	}
-	if len(in.Chunks) > 1 {
-		f = append(f, "several-chunks")
-	}
-	if len(in.Stream) == 0 {
-		f = append(f, "empty-stream")
 	}
 	if in.Src != "" && in.Src != "full" {
 		f = append(f, "src-"+in.Src)
@@ -155,8 +145,10 @@ func (s *srcReader) Read(p []byte) (int, error) {
 }
 
 // checkHash is the oracle for the hashing half: pass-through, size and digests (also mid-stream).
-func checkHash(scen string, in In) (v *mc.Violation) {
-	stream := unhex(in.Stream)
+func checkHash(scen string, in In) *mc.Violation { return checkHashBytes(scen, in, unhex(in.Stream)) }
+
+// checkHashBytes: stream must be the decoding of in.Stream (the enumeration passes it along to avoid re-decoding).
+func checkHashBytes(scen string, in In, stream []byte) (v *mc.Violation) {
 	total := 0
 	for _, c := range in.Chunks {
 		if c < 0 {
@@ -235,11 +227,16 @@ func checkHashInner(scen string, in In, stream []byte) *mc.Violation {
 		return observe(scen, in, hs, names, stream, false)
 	}
 	// reader side: the chunk list gives the successive buffer sizes; afterwards the rest is drained
-	var got []byte
+	got := make([]byte, 0, len(stream)+8)
 	eof := false
 	reads := 0
+	var scratch [64]byte
 	doRead := func(size int) *mc.Violation {
-		buf := make([]byte, size)
+		buf := scratch[:]
+		if size > len(buf) {
+			buf = make([]byte, size)
+		}
+		buf = buf[:size]
 		n, err := r.Read(buf)
 		reads++
 		if n < 0 || n > size {
@@ -823,7 +820,7 @@ func hashScenario(r *mc.Run, name string, bounds map[string]interface{}, ws []wo
 							if len(w.stream) > 0 {
 								st.Nontrivial++
 							}
-							v := checkHash(name, in)
+							v := checkHashBytes(name, in, w.stream)
 							if v != nil {
 								st.Violate(v)
 								st.Class(op + "/violation")
@@ -890,35 +887,31 @@ func Run(r *mc.Run) {
 	sels := selections()
 	single := [][]string{{"md5"}, {"sha1"}, {"sha256"}, {"sha512"}}
 	srcs := []string{"full", "onebyte", "dataeof"}
-	L := r.Pick(4, 6)
-
 	// short streams: all compositions, plus one empty chunk anywhere for the exhaustive alphabet part
-	var short []work
-	for _, s := range shortStreams(L) {
-		short = append(short, work{s, withEmpty(compositions(len(s)))})
+	shortWork := func(L int) ([]work, map[string]interface{}) {
+		var short []work
+		for _, s := range shortStreams(L) {
+			short = append(short, work{s, withEmpty(compositions(len(s)))})
+		}
+		for n := L + 1; n <= 8; n++ {
+			short = append(short, work{pattern(n), compositions(n)})
+			short = append(short, work{bytes.Repeat([]byte{0xFF}, n), compositions(n)})
+		}
+		nch := 0
+		for _, w := range short {
+			nch += len(w.chunks)
+		}
+		return short, map[string]interface{}{"alphabet": "00 61 ff", "exhaustive_max_len": L, "extra_lengths": fmt.Sprintf("%d..8 (two streams each)", L+1),
+			"chunkings": "every composition; one empty chunk inserted at every position for the exhaustive part", "stream_chunking_pairs": nch,
+			"algorithm_selections": len(sels), "observation_points": "end only, and before every chunk / after the last (<=5 chunks) or mid (more)"}
 	}
-	for n := L + 1; n <= 8; n++ {
-		short = append(short, work{pattern(n), compositions(n)})
-		short = append(short, work{bytes.Repeat([]byte{0xFF}, n), compositions(n)})
-	}
-	nch := 0
-	for _, w := range short {
-		nch += len(w.chunks)
-	}
-	b := map[string]interface{}{"alphabet": "00 61 ff", "exhaustive_max_len": L, "extra_lengths": fmt.Sprintf("%d..8 (two streams each)", L+1),
-		"chunkings": "every composition; one empty chunk inserted at every position for the exhaustive part", "stream_chunking_pairs": nch,
-		"algorithm_selections": len(sels), "observation_points": "end only, and before every chunk / after the last (<=5 chunks) or mid (more)"}
+	short, b := shortWork(r.Pick(4, 6))
 	hashScenario(r, "writers-short", b, short, []string{"writers"}, sels, nil)
-	b2 := map[string]interface{}{}
-	for k, v := range b {
-		b2[k] = v
-	}
+	shortR, b2 := shortWork(r.Pick(4, 5)) // three deliveries: one length less in the thorough tier
 	b2["source_delivery"] = srcs
-	hashScenario(r, "readers-short", b2, short, []string{"readers"}, sels, srcs)
-	b3 := map[string]interface{}{}
-	for k, v := range b2 {
-		b3[k] = v
-	}
+	hashScenario(r, "readers-short", b2, shortR, []string{"readers"}, sels, srcs)
+	_, b3 := shortWork(r.Pick(4, 6))
+	b3["source_delivery"] = srcs
 	b3["algorithm_selections"] = "each single name"
 	b3["constructors"] = "NewHasherWriter, NewHasherReader, NewHasher (Write*/Sum/Write*/Sum directly on the Hasher)"
 	hashScenario(r, "singular-short", b3, short, []string{"writer1", "reader1", "hasher"}, single, srcs)
